@@ -65,10 +65,12 @@ func runC11(rec *vkit.Recorder, c *c11Case) []vkit.Violation {
 
 // c11State carries the injector and config manager across reloads of one case.
 type c11State struct {
-	cm  *prom.ConfigManager
-	inj *sidecar.Injector
-	out string
-	dir string
+	cm          *prom.ConfigManager
+	inj         *sidecar.Injector
+	out         string
+	dir         string
+	skipJob     string // follow-up "dropJobTargets": the next assignment has no entry for this job any more
+	onlyTargets bool
 }
 
 func runC11Phase(rec *vkit.Recorder, c *c11Case, spec *Spec, st *c11State) (vs []vkit.Violation) {
@@ -83,6 +85,9 @@ func runC11Phase(rec *vkit.Recorder, c *c11Case, spec *Spec, st *c11State) (vs [
 	}
 	assign := map[string][]*target.Target{}
 	for _, t := range c.Targets {
+		if st != nil && st.skipJob != "" && t.Job == st.skipJob {
+			continue
+		}
 		sch := "http"
 		if t.HTTPS {
 			sch = "https"
@@ -119,6 +124,8 @@ func runC11Phase(rec *vkit.Recorder, c *c11Case, spec *Spec, st *c11State) (vs [
 				err = st.inj.UpdateTargets(assign)
 			}
 		}
+	} else if st.onlyTargets {
+		err = st.inj.UpdateTargets(assign)
 	} else {
 		err = st.cm.ReloadFromRaw([]byte(text))
 	}
@@ -135,6 +142,21 @@ func runC11Phase(rec *vkit.Recorder, c *c11Case, spec *Spec, st *c11State) (vs [
 			}
 			spec2 := spec.Clone()
 			switch {
+			case c.FollowUp == "addGhost":
+				// a later configuration contains the job whose targets were assigned all along
+				spec2.Jobs = append(spec2.Jobs, Job{Name: "job-that-no-longer-exists", SDs: []SD{{Kind: "static", Targets: []string{"x:1"}}}})
+			case c.FollowUp == "dropJobTargets":
+				// the next assignment simply has no entry for a job that had targets
+				for _, t := range c.Targets {
+					if t.Job != "job-that-no-longer-exists" {
+						st.skipJob = t.Job
+						break
+					}
+				}
+				if st.skipJob == "" {
+					return
+				}
+				st.onlyTargets = true
 			case c.FollowUp == "ext":
 				applyExt(spec2, "change")
 			case strings.HasPrefix(c.FollowUp, "edit:"):
@@ -415,7 +437,12 @@ func genC11(t *rapid.T) *c11Case {
 				HTTPS: rapid.Bool().Draw(t, fmt.Sprintf("https-%d", h)), Extra: rapid.SampledFrom([]string{"", "x", "a: b", "quo\"te"}).Draw(t, fmt.Sprintf("extra-%d", h))})
 		}
 	}
-	switch rapid.IntRange(0, 3).Draw(t, "followUp") {
+	switch rapid.IntRange(0, 5).Draw(t, "followUp") {
+	case 3:
+		c.FollowUp = "addGhost"
+		c.Targets = append(c.Targets, c11Target{Job: "job-that-no-longer-exists", Hash: 78, Addr: "10.9.9.8:1"})
+	case 4:
+		c.FollowUp = "dropJobTargets"
 	case 1:
 		c.FollowUp = "ext"
 	case 2:
